@@ -9,7 +9,7 @@
 
 #![allow(non_snake_case)]
 
-use crate::adapters::KcSpec;
+use crate::adapters::{KcSpec, KC_ZERO};
 use vek::quaternion::repr_c::Quaternion;
 use vek::vec::repr_c::*;
 
@@ -39,8 +39,10 @@ impl KVec2 {
         KcSpec { name: "v.with_x(e)", extras: 1, result: &[-1, 1] },
         KcSpec { name: "v.with_y(e)", extras: 1, result: &[0, -1] },
         KcSpec { name: "Vec2::from(v.with_z(e))", extras: 1, result: &[0, 1] },
+        KcSpec { name: "Vec2::from(Vec3::from(v))  [zero-extended, T: Zero]", extras: 0, result: &[0, 1] },
+        KcSpec { name: "Vec2::from(Vec4::from(v))  [zero-extended, T: Zero]", extras: 0, result: &[0, 1] },
     ];
-    pub fn conv<X>(v: Vec2<X>, variant: usize, extras: Vec<X>) -> Vec2<X> {
+    pub fn conv<X: vek::num_traits::Zero>(v: Vec2<X>, variant: usize, extras: Vec<X>) -> Vec2<X> {
         let mut e = take(extras);
         match variant {
             0 => Vec2::from(Extent2::from(v)),
@@ -53,6 +55,8 @@ impl KVec2 {
             4 => v.yx(),
             5 => v.with_x(e.next().unwrap()),
             6 => v.with_y(e.next().unwrap()),
+            8 => Vec2::from(Vec3::from(v)),
+            9 => Vec2::from(Vec4::from(v)),
             _ => Vec2::from(v.with_z(e.next().unwrap())),
         }
     }
@@ -72,8 +76,10 @@ impl KVec3 {
         KcSpec { name: "v.with_z(e)", extras: 1, result: &[0, 1, -1] },
         KcSpec { name: "Vec3::from((v.xy(), e))", extras: 1, result: &[0, 1, -1] },
         KcSpec { name: "Vec3::from(v.with_w(e))", extras: 1, result: &[0, 1, 2] },
+        KcSpec { name: "Vec3::from(Vec4::from(v))  [zero-extended, T: Zero]", extras: 0, result: &[0, 1, 2] },
+        KcSpec { name: "Vec3::from(Vec2::from(v))  [truncated, then zero-extended, T: Zero]", extras: 0, result: &[0, 1, KC_ZERO] },
     ];
-    pub fn conv<X>(v: Vec3<X>, variant: usize, extras: Vec<X>) -> Vec3<X> {
+    pub fn conv<X: vek::num_traits::Zero>(v: Vec3<X>, variant: usize, extras: Vec<X>) -> Vec3<X> {
         let mut e = take(extras);
         match variant {
             0 => Vec3::from(Extent3::from(v)),
@@ -86,6 +92,8 @@ impl KVec3 {
             7 => v.with_y(e.next().unwrap()),
             8 => v.with_z(e.next().unwrap()),
             9 => Vec3::from((v.xy(), e.next().unwrap())),
+            11 => Vec3::from(Vec4::from(v)),
+            12 => Vec3::from(Vec2::from(v)),
             _ => Vec3::from(v.with_w(e.next().unwrap())),
         }
     }
@@ -114,10 +122,14 @@ impl KVec4 {
         KcSpec { name: "Vec4::interleave_2233(v, w)", extras: 4, result: &[2, -3, 3, -4] },
         KcSpec { name: "Vec4::shuffle_lo_hi_0101(v, w)", extras: 4, result: &[0, 1, -1, -2] },
         KcSpec { name: "Vec4::shuffle_hi_lo_2323(v, w)", extras: 4, result: &[-3, -4, 2, 3] },
+        KcSpec { name: "Vec4::from(Vec3::from(v))  [truncated, then zero-extended, T: Zero]", extras: 0, result: &[0, 1, 2, KC_ZERO] },
+        KcSpec { name: "Vec4::from(Vec2::from(v))  [truncated, then zero-extended, T: Zero]", extras: 0, result: &[0, 1, KC_ZERO, KC_ZERO] },
     ];
-    pub fn conv<X>(v: Vec4<X>, variant: usize, extras: Vec<X>) -> Vec4<X> {
+    pub fn conv<X: vek::num_traits::Zero>(v: Vec4<X>, variant: usize, extras: Vec<X>) -> Vec4<X> {
         let mut e = take(extras);
         match variant {
+            20 => Vec4::from(Vec3::from(v)),
+            21 => Vec4::from(Vec2::from(v)),
             0 => Vec4::from(Rgba::from(v)),
             1 => Vec4::from((Vec3::from(v), e.next().unwrap())),
             2 => Vec4::from((Vec3::from((Vec2::from(v), e.next().unwrap())), e.next().unwrap())),
